@@ -34,6 +34,8 @@ def ctor(spec, fields=()):
 
     def handler(ex, st, node, args, kwargs):
         o = st.alloc(T_OBJ, "inst")
+        for f in list(getattr(spec, "FIELDS", [])) + ["check_on"]:
+            st.put("has:" + f, o, z3.BoolVal(False))  # a fresh instance has no attributes yet
         out = []
         for s, r in h(ex, st, node, [V("ref", o, None)] + list(args), kwargs):
             out.append((s, r if isinstance(r, Raise) else V("ref", o, spec.instance_hint)))
